@@ -555,6 +555,8 @@ class Session:
                         self.c("clause_monotone_pairs")
                         if (p2 < p and top2 > top) or (p2 > p and top2 < top):
                             why = "|bar-cached-across-off-screen-content-change" if (stale or stale2) else ""
+                            if self.kind == "LB" and not why:
+                                why = "|relative-mode" if self.lb.require_relative_scroll((w, h), focus) else "|row-mode"
                             self.viol(
                                 f"C20|{self.topname}|thumb-not-monotone{why}",
                                 f"same content/size: p={p2} -> top={top2}, p={p} -> top={top} (h={h}, total={total})",
@@ -677,6 +679,21 @@ def core_cases(quick):
                 wrap = {"kind": "LB", "side": "right", "bw": 1, "thumb": "#", "trough": ".", "walker": "focus"}
                 items = [["rowspy", 3 * i, rows_each, True, [], []] for i in range(nitems)]
                 out.append({"content": ["listbox", items, 0], "wrap": wrap, "size": [6, h], "focus": True, "ops": [["sweep", "keys"], ["sweep", "wheel"]]})
+    # ListBox items of different heights in relative mode (19 items > 3*6), and an off-screen item that grows
+    lbwrap = {"kind": "LB", "side": "right", "bw": 1, "thumb": "#", "trough": ".", "walker": "focus"}
+    heights = [1, 2, 4, 4, 3, 1, 1, 1, 1, 1, 5, 1, 1, 4, 1, 1, 2, 1, 3]
+    items = [["rowspy", 6 * i, n, False, [], []] for i, n in enumerate(heights)]
+    out.append({"content": ["listbox", items, 0], "wrap": lbwrap, "size": [4, 6], "focus": True, "ops": [["sweep", "keys"], ["sweep", "wheel"]]})
+    items = [["rowspy", 30 * i, 1, False, [], []] for i in range(12)]
+    wheel = ["mouse", "mouse press", 5, 0, 0]
+    ops = [wheel, wheel, ["setrows", 0, 26], ["mouse", "mouse press", 4, 0, 0], ["mouse", "mouse press", 4, 0, 0]]
+    out.append({"content": ["listbox", items, 0], "wrap": lbwrap, "size": [6, 4], "focus": True, "ops": ops})
+    # urwid.Text with MORE rows at the wider width (4 rows at 10 columns, 3 rows at 9): the circular bar case
+    text = ["text", ["A0 B1", "C2", "D3 E4 F5 G6 H7 I8", "J9", "K10 L11 M12 N13 O14 P15", "Q16R17r17q"], "space", "left"]
+    wrap = {"kind": "SB", "side": "left", "bw": 1, "thumb": "#", "trough": "."}
+    for pos in (0, 7):
+        ops = [["setpos", pos], ["settext", -1, ["L37 M38N39n39q O40 P41 Q42"]], ["key", "down"], ["setpos", -1]]
+        out.append({"content": text, "wrap": wrap, "size": [10, 3], "focus": True, "ops": ops})
     return out
 
 
